@@ -311,7 +311,7 @@ def reload_record(cfg_type: type, cfg: Any, names: list[str], how: str, loader: 
             "detail": {"how": how, "config_type": cfg_type.__name__, "differs": diff, "error": note, "dump": dump}}
 
 
-def load_direct(cmd: type) -> Any:
+def load_direct(cmd: type, sb: Any = None) -> Any:
     def f(cfg: Any) -> Any:
         return cmd.CONFIG_TYPE(**json.loads(cfg.model_dump_json()))
     return f
@@ -362,6 +362,10 @@ def load_via_db(cmd: type, sb: L.Sandbox) -> Any:
                 except OSError:
                     pass
     return f
+
+
+LOADERS = {"model_dump_json": load_direct, "META.json+Rerunner": load_via_meta,
+           "run_meta row+Rerunner": load_via_db}
 
 
 class _Captured(Exception):
@@ -423,7 +427,8 @@ def run_command(job: dict[str, Any]) -> dict[str, Any]:
             out["base_error"] = L.error_message(err0 or "")[:300]
             return out
         tree = L.load_commands() if job.get("tree") else None
-        seen_cfg: dict[str, Any] = {L.ckey(dict(cfg0)): cfg0}
+        origin0 = {"argv": ctx.argv_of(ctx.base), "env": {}, "toml": ""}
+        seen_cfg: dict[str, Any] = {L.ckey(dict(cfg0)): (cfg0, origin0)}
         names = [o.name for o in ctx.opts]
         for o in ctx.opts:
             if job.get("only") and o.name not in job["only"]:
@@ -447,21 +452,28 @@ def run_command(job: dict[str, Any]) -> dict[str, Any]:
                         out["skipped"]["pattern-not-instantiable"] = out["skipped"].get("pattern-not-instantiable", 0) + 1
                         continue
                     cfg = c.pop("cfg")
-                    if cfg is not None and len(seen_cfg) < job.get("reload_cap", 100000):
-                        seen_cfg.setdefault(L.ckey(dict(cfg)), cfg)
+                    if cfg is not None and tree is None and len(seen_cfg) < job.get("reload_cap", 100000):
+                        d = c["detail"]
+                        seen_cfg.setdefault(L.ckey(dict(cfg)),
+                                            (cfg, {"argv": d["argv"], "env": d["env"], "toml": d["toml"]}))
                     out["cases"].append(c)
         # Q3
-        direct = load_direct(cmd)
-        for cfg in seen_cfg.values():
-            out["reloads"].append(reload_record(ctx.cfg_type, cfg, names, "model_dump_json", direct))
+        if job.get("reload_cap", 1) == 0:
+            return out
+
+        def add(cfg: Any, origin: dict[str, Any], how: str) -> None:
+            r = reload_record(ctx.cfg_type, cfg, names, how, LOADERS[how](cmd, sb))
+            r["detail"]["command"] = list(path)
+            r["detail"]["origin"] = origin
+            out["reloads"].append(r)
+
+        for cfg, origin in seen_cfg.values():
+            add(cfg, origin, "model_dump_json")
         n_meta = job.get("n_meta", 3)
         step = max(1, len(seen_cfg) // max(1, n_meta))
-        sample = list(seen_cfg.values())[::step][:n_meta]
-        for cfg in sample:
-            out["reloads"].append(reload_record(ctx.cfg_type, cfg, names, "META.json+Rerunner", load_via_meta(cmd, sb)))
-            out["reloads"].append(reload_record(ctx.cfg_type, cfg, names, "run_meta row+Rerunner", load_via_db(cmd, sb)))
-        for r in out["reloads"]:
-            r["detail"]["command"] = list(path)
+        for cfg, origin in list(seen_cfg.values())[::step][:n_meta]:
+            add(cfg, origin, "META.json+Rerunner")
+            add(cfg, origin, "run_meta row+Rerunner")
         return out
     finally:
         sb.close()
